@@ -2,9 +2,19 @@
 // C42 — connection hooks gate every connection: the hook lists short-circuit correctly.
 use vstd::prelude::*;
 use vstd::std_specs::cmp::OrdSpec;
+macro_rules! debug { ($($t:tt)*) => {}; }
+macro_rules! event { ($($t:tt)*) => {}; }
+// n0_error::e! / ensure! (the macro only adds a source location); variants carrying a source are built by `?` conversions
+macro_rules! e {
+    ($($err:tt)::+ { $($body:tt)* }) => { $($err)::+ { $($body)* } };
+    ($($err:tt)::+) => { $($err)::+ {} };
+}
+macro_rules! ensure { ($cond:expr, $($t:tt)*) => { if !$cond { return Err(e!($($t)*)); } }; }
 verus! {
 //@include shims/std_wide.rs
-pub struct EndpointAddr { pub id: int }
+#[derive(Clone, Copy, PartialEq, Eq, Structural)]
+pub struct EndpointId { pub k: int }
+pub struct EndpointAddr { pub id: EndpointId }
 pub struct Connection { pub id: int }
 pub struct VarInt(pub u64);
 //@item iroh/src/endpoint/hooks.rs enum BeforeConnectOutcome
@@ -65,6 +75,95 @@ impl EndpointHooksList {
 //@loop 1
 //@| invariant
 //@|     forall|i: int| 0 <= i < it.index@ ==> (#[trigger] self.inner@[i]).verdict_after(*conn) is Accept,
+//@end
+}
+
+// ======== Endpoint::connect_with_opts: connect preconditions
+// error enum of endpoint.rs without its foreign payloads
+pub enum ConnectWithOptsError { SelfConnect, NoAddress, Noq, InternalConsistencyError, LocallyRejected, EndpointClosed, InvalidAlpn }
+pub struct AddressLookupFailed; pub struct RemoteStateActorStoppedError; pub struct QuicConnectError;
+impl From<AddressLookupFailed> for ConnectWithOptsError { #[verifier::external_body] fn from(e: AddressLookupFailed) -> (r: ConnectWithOptsError) ensures r is NoAddress { unimplemented!() } }
+impl From<RemoteStateActorStoppedError> for ConnectWithOptsError { #[verifier::external_body] fn from(e: RemoteStateActorStoppedError) -> (r: ConnectWithOptsError) ensures r is InternalConsistencyError { unimplemented!() } }
+impl From<QuicConnectError> for ConnectWithOptsError { #[verifier::external_body] fn from(e: QuicConnectError) -> (r: ConnectWithOptsError) ensures r is Noq { unimplemented!() } }
+pub struct TransportArc;
+impl Clone for TransportArc { #[verifier::external_body] fn clone(&self) -> TransportArc { unimplemented!() } }
+pub struct QuicTransportConfig;
+impl QuicTransportConfig { #[verifier::external_body] pub fn to_inner_arc(&self) -> TransportArc { unimplemented!() } }
+//@item iroh/src/endpoint.rs struct ConnectOptions pubfields
+pub struct ClientConfig { pub alpns: Seq<Seq<u8>> }
+pub open spec fn alpn_views(v: Seq<Vec<u8>>) -> Seq<Seq<u8>> { Seq::new(v.len(), |i: int| v[i]@) }
+pub struct StaticConfig { pub transport_config: QuicTransportConfig }
+impl StaticConfig {
+    #[verifier::external_body]
+    pub fn create_client_config(&self, alpn_protocols: Vec<Vec<u8>>, transport_config: TransportArc) -> (r: ClientConfig)
+        ensures r.alpns == alpn_views(alpn_protocols@)
+    { unimplemented!() }
+}
+pub struct MappedAddr; pub struct SocketAddr;
+impl MappedAddr { #[verifier::external_body] pub fn private_socket_addr(&self) -> SocketAddr { unimplemented!() } }
+pub struct NoqConnecting;
+pub struct NoqEndpoint;
+pub uninterp spec fn name_encode(id: EndpointId) -> Seq<char>;
+impl NoqEndpoint {
+    // the QUIC/TLS handshake starts here: the primary protocol name offered must be non-empty.
+    // (Observation, not part of the property: an empty entry in ConnectOptions::additional_alpns is not rejected
+    // either and makes rustls hit a debug assertion; only the primary name is covered by C42.)
+    #[verifier::external_body]
+    pub fn connect_with(&self, config: ClientConfig, addr: SocketAddr, server_name: &String) -> (r: Result<NoqConnecting, QuicConnectError>)
+        requires config.alpns.len() >= 1 && config.alpns[0].len() > 0,   // [C42]
+    { unimplemented!() }
+}
+pub mod tls { pub mod name {
+    use vstd::prelude::*;
+    #[verifier::external_body]
+    pub fn encode(id: super::super::EndpointId) -> (r: String) ensures r@ == super::super::name_encode(id) { unimplemented!() }
+} }
+pub struct EndpointInner { pub hooks: EndpointHooksList, pub static_config: StaticConfig, pub noq: NoqEndpoint }
+impl EndpointInner {
+    #[verifier::external_body]
+    pub async fn resolve_remote(&self, addr: EndpointAddr) -> (r: Result<Result<MappedAddr, AddressLookupFailed>, RemoteStateActorStoppedError>) { unimplemented!() }
+    #[verifier::external_body]
+    pub fn noq_endpoint(&self) -> (r: &NoqEndpoint) ensures *r == self.noq { unimplemented!() }
+}
+pub struct Endpoint { pub inner: std::sync::Arc<EndpointInner>, pub my_id: EndpointId }
+impl Clone for Endpoint { #[verifier::external_body] fn clone(&self) -> (r: Endpoint) ensures r == *self { unimplemented!() } }
+pub struct Connecting { pub remote: EndpointId }
+impl Connecting { #[verifier::external_body] pub fn new(c: NoqConnecting, ep: Endpoint, remote: EndpointId) -> (r: Connecting) ensures r.remote == remote { unimplemented!() } }
+pub mod span {
+    pub struct Span;
+    impl Span { #[verifier::external_body] pub fn current() -> Span { unimplemented!() } }
+}
+use span::Span;
+pub trait IntoAddr { spec fn addr(&self) -> EndpointAddr; fn into(self) -> (r: EndpointAddr) ensures r == self.addr(); }
+pub open spec fn all_accept_before(hooks: EndpointHooksList, addr: EndpointAddr, alpn: Seq<u8>) -> bool {
+    forall|i: int| 0 <= i < hooks.inner@.len() ==> (#[trigger] hooks.inner@[i]).verdict_before(addr, alpn) is Accept
+}
+impl Endpoint {
+    #[verifier::external_body]
+    pub fn is_closed(&self) -> bool { unimplemented!() }
+    #[verifier::external_body]
+    pub fn id(&self) -> (r: EndpointId) ensures r == self.my_id { unimplemented!() }
+
+//@fn iroh/src/endpoint.rs Endpoint::connect_with_opts props=C42 ret=r
+//@| ensures
+//@|     // a connection attempt gets as far as a `Connecting` only if every hook accepted, the remote is not ourselves
+//@|     // and the protocol name is non-empty
+//@|     r is Ok ==> all_accept_before(self.inner.hooks, endpoint_addr.addr(), alpn@) && endpoint_addr.addr().id != self.my_id && alpn@.len() > 0,
+//@|     endpoint_addr.addr().id == self.my_id ==> r is Err,
+//@|     alpn@.len() == 0 ==> r is Err,
+//@|     r matches Ok(c) ==> c.remote == endpoint_addr.addr().id,
+//@rw D5 1
+//@- endpoint_addr: impl Into<EndpointAddr>,
+//@+ endpoint_addr: impl IntoAddr,
+//@rwx D1 1
+//@-         Span::current\(\)\.record\("remote", tracing::field::display\(endpoint_id\.fmt_short\(\)\)\);\n
+//@+
+//@rwx A3 1
+//@- \.map\(\|cfg\| (.+?)\)\n
+//@+ .map(|cfg: QuicTransportConfig| -> (o: TransportArc) { \1 })\n
+//@rw R18 1
+//@- alpn_protocols.extend(options.additional_alpns);
+//@+ let mut additional = options.additional_alpns; alpn_protocols.append(&mut additional);
 //@end
 }
 } // verus!
